@@ -995,7 +995,7 @@ spec:
             self.cur() < self.toks().len() ==> r == self.toks()[self.cur()].span.s(),
 before `self.parsed()`:
         proof { lemma_off_mono(self.toks(), self.cur(), self.cur()); }
-closure 0 `&Token` ret `e: usize`:
+closure @ `|t| t.span.end()` `&Token` ret `e: usize`:
         ensures e == t.span.e()
 @*/
 /*@ fn src/parser/block_parser.rs BlockParser::tokens
@@ -1038,7 +1038,7 @@ spec:
         requires self.wf()
         ensures self.cur() < self.toks().len() ==> r == self.toks()[self.cur()].kind,
             self.cur() >= self.toks().len() ==> r == TokenKind::Eof
-closure 0 `&Token` ret `k: TokenKind`:
+closure @ `|token| token.kind` `&Token` ret `k: TokenKind`:
         ensures k == token.kind
 @*/
 /*@ fn src/parser/block_parser.rs BlockParser::at
@@ -1087,7 +1087,7 @@ spec:
                 && r.unwrap()@ == old(self).toks().subrange(old(self).cur(), final(self).cur()) && toks_ok(r.unwrap()@)
                 && f.ensures((old(self).toks()[final(self).cur()].kind,), true)
                 && forall|j: int| 0 <= j < final(self).cur() - old(self).cur() ==> f.ensures(((#[trigger] old(self).rest_spec()[j]).kind,), false),
-closure 0 `&Token` ret `b: bool`:
+closure @ `|t| f(t.kind)` `&Token` ret `b: bool`:
         requires f.requires((t.kind,)) ensures f.ensures((t.kind,), b)
 after `let rest = self.rest();`:
         proof {
@@ -1107,7 +1107,7 @@ spec:
             s@ == old(self).toks().subrange(old(self).cur(), final(self).cur()), toks_ok(s@),
             forall|j: int| 0 <= j < final(self).cur() - old(self).cur() ==> f.ensures(((#[trigger] old(self).rest_spec()[j]).kind,), true),
             final(self).cur() < old(self).toks().len() ==> f.ensures((old(self).toks()[final(self).cur()].kind,), false),
-closure 0 `&Token` ret `b: bool`:
+closure @ `|t| !f(t.kind)` `&Token` ret `b: bool`:
         requires f.requires((t.kind,)) ensures f.ensures((t.kind,), !b)
 after `let rest = self.rest();`:
         proof {
@@ -1127,7 +1127,7 @@ spec:
             s@ == old(self).toks().subrange(old(self).cur(), final(self).cur()), toks_ok(s@),
             forall|j: int| 0 <= j < final(self).cur() - old(self).cur() ==> is_ws_comment((#[trigger] old(self).rest_spec()[j]).kind),    // [C05] only blank tokens are skipped
             final(self).cur() < old(self).toks().len() ==> !is_ws_comment(old(self).toks()[final(self).cur()].kind),
-closure 0 `TokenKind` ret `b: bool`:
+closure @ `|t| matches!(t, T![ws] | T![line comment] | T![block comment])` `TokenKind` ret `b: bool`:
         ensures b == is_ws_comment(t)
 @*/
 /*@ fn src/parser/block_parser.rs BlockParser::consume
@@ -1204,7 +1204,7 @@ spec:
         only_diags(final(block).evs(), old(block).evs()),
 closure 0 `TokenKind` ret `b: bool`:
         ensures b == (t == TokenKind::Eq)
-closure 1 `TokenKind` ret `b: bool`:
+closure @ `|t| t != T![=]` `TokenKind` ret `b: bool`:
         ensures b == (t != TokenKind::Eq)
 closure 2 `TokenKind` ret `b: bool`:
         ensures b == (t == TokenKind::Eq)
@@ -1254,7 +1254,7 @@ spec:
         // [C07] at most one diagnostic is queued
         final(block).evs() == old(block).evs() || (final(block).evs().len() == old(block).evs().len() + 1 && (final(block).evs().last() is Warning || final(block).evs().last() is Error)),
         only_diags(final(block).evs(), old(block).evs()),
-closure 0 `TokenKind` ret `b: bool`:
+closure @ `|t| t == T![:]` `TokenKind` ret `b: bool`:
         ensures b == (t == TokenKind::Colon)
 after `let key = block.text(key_pos, key_tokens);`:
     let ghost kc = block.cur();
@@ -1295,11 +1295,11 @@ before `let tokens = bp.capture_slice(|bp| {`:
         // (a closure inside a loop cannot use old() on its own &mut parameter in this Verus version:
         //  its contract is stated against a ghost snapshot taken right before the call)
         let ghost pre = *bp;
-closure 1 `&mut BlockParser` :
+closure @ `|bp| {` `&mut BlockParser` :
         requires *old(bp) == pre, pre.wf() ensures final(bp).wf(), final(bp).same(&pre), final(bp).cur() >= pre.cur(),
             final(bp).evs() == pre.evs(),
             pre.cur() < pre.toks().len() ==> final(bp).cur() > pre.cur()
-closure 2 `TokenKind` ret `b: bool`:
+closure @ `|t| t != T![newline]` `TokenKind` ret `b: bool`:
         ensures b == (t != TokenKind::Newline)
 after `let text = bp.text(start, tokens);`:
         let ghost m = *bp;
@@ -1427,7 +1427,7 @@ spec:
         (forall|i: int| 0 <= i < tokens@.len() ==> (#[trigger] tokens@[i]).kind != TokenKind::Minus) ==> r.is_none(),
         r.is_some() && r.unwrap() is Ok ==> r.unwrap()->Ok_0 is Range,
         r.is_some() && r.unwrap() is Err ==> r.unwrap()->Err_0.sev() == crate::error::Severity::Error,
-closure 0 `&Token` ret `b: bool`:
+closure @ `|t| t.kind == T![-]` `&Token` ret `b: bool`:
         ensures b == (t.kind == TokenKind::Minus)
 before `let mid = tokens.iter().position(|t| t.kind == T![-])?;`:
     proof { lemma_vals_as_ref(tokens@); }
@@ -1448,7 +1448,7 @@ spec:
         tokens@ == old(bp).toks().subrange(old(bp).cur() - tokens@.len(), old(bp).cur()), tokens@.len() <= old(bp).cur(),
     ensures final(bp).wf(), final(bp).same(old(bp)), final(bp).cur() == old(bp).cur(), only_diags(final(bp).evs(), old(bp).evs()),
         r.sp().ok(),     // [C04]
-closure 0 `&Token` ret `e: usize`:
+closure @ `|t| t.span.start()` `&Token` ret `e: usize`:
         ensures e == t.span.s()
 before `let start = tokens`:
     proof {
@@ -1464,7 +1464,7 @@ spec:
     ensures final(bp).wf(), final(bp).same(old(bp)), final(bp).cur() >= old(bp).cur(), only_diags(final(bp).evs(), old(bp).evs()),
         r.value.sp().ok(), r.scaling_lock.is_some() ==> r.scaling_lock.unwrap().ok(),
         final(bp).cur() < final(bp).toks().len() ==> final(bp).toks()[final(bp).cur()].kind == TokenKind::Percent,
-closure 0 `TokenKind` ret `b: bool`:
+closure @ `|t| !matches!(t, T![%])` `TokenKind` ret `b: bool`:
         ensures b == (t != TokenKind::Percent)
 @*/
 /*@ fn src/parser/quantity.rs parse_regular_quantity
@@ -1474,7 +1474,7 @@ spec:
     requires old(bp).wf(), old(bp).cur() == 0,
     ensures final(bp).wf(), final(bp).same(old(bp)), only_diags(final(bp).evs(), old(bp).evs()),
         pq_ok(r),     // [C04] every span of the parsed quantity is a reportable location
-closure 0 `TokenKind` ret `b: bool`:
+closure @ `|t| t != T![%]` `TokenKind` ret `b: bool`:
         ensures b == (t != TokenKind::Percent)
 before `let text = bp.text(bp.span().start(), bp.parsed());`:
             proof { lemma_sub_ok(bp.toks(), 0, bp.cur()); lemma_tok(bp.toks(), 0); }
@@ -1600,7 +1600,7 @@ spec:
         // [C07] at most one error
         final(bp).evs() == old(bp).evs() || (final(bp).evs().len() == old(bp).evs().len() + 1 && final(bp).evs().last() is Error),
         only_diags(final(bp).evs(), old(bp).evs()),
-closure 0 `&Token` ret `b: bool`:
+closure @ `|t| t.kind == T![|]` `&Token` ret `b: bool`:
         ensures b == (t.kind == TokenKind::Or)
 before `if let Some(sep) = name_tokens.iter().position(`:
     proof { lemma_vals_as_ref(name_tokens@); }
@@ -1615,12 +1615,12 @@ spec:
     ensures final(bp).wf(), final(bp).same(old(bp)), final(bp).cur() == old(bp).cur(),    // [C05] the note is never consumed: it stays text
         final(bp).evs() == old(bp).evs() || (final(bp).evs().len() == old(bp).evs().len() + 1 && final(bp).evs().last() is Warning),
         only_diags(final(bp).evs(), old(bp).evs()),
-closure 0 `&mut BlockParser` ret `o: Option<()>`:
+closure @ `|bp| {` `&mut BlockParser` ret `o: Option<()>`:
         requires old(bp).wf(), old(bp).cur() >= 1
         ensures final(bp).wf(), final(bp).same(old(bp)), o.is_none(),
             final(bp).evs() == old(bp).evs() || (final(bp).evs().len() == old(bp).evs().len() + 1 && final(bp).evs().last() is Warning),
             only_diags(final(bp).evs(), old(bp).evs()),
-closure 1 `TokenKind` ret `b: bool`:
+closure @ `|t| t == T![')']` `TokenKind` ret `b: bool`:
         ensures b == (t == TokenKind::CloseParen)
 before `bp.warn(`:
             proof { lemma_mono(bp.toks(), old(bp).cur(), bp.cur() - 1); }
@@ -1633,11 +1633,11 @@ spec:
     ensures final(bp).wf(), final(bp).same(old(bp)), final(bp).evs() == old(bp).evs(),
         r.is_none() ==> final(bp).cur() == old(bp).cur(),
         r.is_some() ==> final(bp).cur() > old(bp).cur() && r.unwrap().wf() && gbnd(r.unwrap().start_spec()) && gbnd(r.unwrap().end_spec()),
-closure 0 `&mut BlockParser<'_, 'i>` ret `o: Option<Text<'i>>`:
+closure @ `|line| {` `&mut BlockParser<'_, 'i>` ret `o: Option<Text<'i>>`:
         requires old(line).wf()
         ensures final(line).wf(), final(line).same(old(line)), final(line).evs() == old(line).evs(),
             o.is_some() ==> final(line).cur() > old(line).cur() && o.unwrap().wf() && gbnd(o.unwrap().start_spec()) && gbnd(o.unwrap().end_spec()),
-closure 1 `TokenKind` ret `b: bool`:
+closure @ `|t| t == T![')']` `TokenKind` ret `b: bool`:
         ensures b == (t == TokenKind::CloseParen)
 @*/
 /*@ fn src/parser/step.rs modifiers
@@ -1657,10 +1657,10 @@ loop 0:
         decreases bp.toks().len() - bp.cur()
 before `bp.with_recover(|bp| {`:
                     let ghost pre = *bp;
-closure 0 `&mut BlockParser` ret `o: Option<()>`:
+closure @ `|bp| {` `&mut BlockParser` ret `o: Option<()>`:
         requires *old(bp) == pre, pre.wf()
         ensures final(bp).wf(), final(bp).same(&pre), final(bp).evs() == pre.evs(), final(bp).cur() >= pre.cur(),
-closure 1 `TokenKind` ret `b: bool`:
+closure @ `|t| t == T![')']` `TokenKind` ret `b: bool`:
         ensures b == (t == TokenKind::CloseParen)
 before `&bp.tokens()[start..bp.current]`:
     proof { lemma_sub_ok(bp.toks(), start as int, bp.cur()); }
@@ -1684,23 +1684,23 @@ spec:
         r.is_some() ==> final(bp).cur() > old(bp).cur() && r.unwrap().ok(old(bp).toks(), old(bp).cur()),
         final(bp).evs() == old(bp).evs() || (final(bp).evs().len() == old(bp).evs().len() + 1 && final(bp).evs().last() is Warning),
         only_diags(final(bp).evs(), old(bp).evs()),
-closure 0 `&mut BlockParser<'t, '_>` ret `o: Option<Body<'t>>`:
+closure @ `|line| {` `&mut BlockParser<'t, '_>` ret `o: Option<Body<'t>>`:
         requires old(line).wf()
         ensures final(line).wf(), final(line).same(old(line)), final(line).evs() == old(line).evs(),
             o.is_some() ==> final(line).cur() > old(line).cur() && o.unwrap().ok(old(line).toks(), old(line).cur()),
-closure 1 `TokenKind` ret `b: bool`:
+closure @ `|t| matches!(t, T!['{'] | T![@] | T![#] | T![~])` `TokenKind` ret `b: bool`:
         ensures b == (t == TokenKind::OpenBrace || is_marker(t))
-closure 2 `TokenKind` ret `b: bool`:
+closure @ `|t| t == T!['}']` `TokenKind` ret `b: bool`:
         ensures b == (t == TokenKind::CloseBrace)
-closure 3 `&Token` ret `b: bool`:
+closure @ `|t| !matches!(t.kind, T![ws] | T![block comment])` `&Token` ret `b: bool`:
         ensures b == !(t.kind == TokenKind::Whitespace || t.kind == TokenKind::BlockComment)
-closure 5 `&mut BlockParser<'t, '_>` ret `o: Option<Body<'t>>`:
+closure @ `|bp| {` `&mut BlockParser<'t, '_>` ret `o: Option<Body<'t>>`:
         requires old(bp).wf()
         ensures final(bp).wf(), final(bp).same(old(bp)),
             o.is_some() ==> final(bp).cur() > old(bp).cur() && o.unwrap().ok(old(bp).toks(), old(bp).cur()) && final(bp).evs() == old(bp).evs(),
             final(bp).evs() == old(bp).evs() || (final(bp).evs().len() == old(bp).evs().len() + 1 && final(bp).evs().last() is Warning),
             only_diags(final(bp).evs(), old(bp).evs()),
-closure 6 `TokenKind` ret `b: bool`:
+closure @ `|t| matches!(t, T![word] | T![int] | T![zeroint])` `TokenKind` ret `b: bool`:
         ensures b == (t == TokenKind::Word || t == TokenKind::Int || t == TokenKind::ZeroInt)
 after `let close_span_start = line.consume(T!['{'])?.span.start();`:
         let ghost i1 = line.cur() - 1;
@@ -1773,9 +1773,9 @@ spec:
     ensures final(bp).wf(), final(bp).same(old(bp)), only_diags(final(bp).evs(), old(bp).evs()),
         // [C04] [C05] the event spans exactly the consumed tokens
         r.is_some() ==> final(bp).cur() > old(bp).cur() && comp_at(r.unwrap(), old(bp).off(), final(bp).off()),
-closure 1 `Quantity<'i>` ret `v: QuantityValue`:
+closure @ `|q| q.value` `Quantity<'i>` ret `v: QuantityValue`:
         ensures v == q.value
-closure 2 `&&Token` ret `b: bool`:
+closure @ `|t| t.kind == T![@]` `&&Token` ret `b: bool`:
         ensures b == (t.kind == TokenKind::At)
 after `let body = comp_body(bp)?;`:
     proof { lemma_off_mono(bp.toks(), old(bp).cur() + 1, bp.cur()); lemma_names(); }
@@ -1844,10 +1844,10 @@ after `bp.event(ev)`:
             }
 before `let tokens = bp.capture_slice(|bp| {`:
             let ghost pre2 = *bp;
-closure 0 `&mut BlockParser` :
+closure @ `|bp| {` `&mut BlockParser` :
         requires *old(bp) == pre2, pre2.wf(), pre2.cur() < pre2.toks().len()
         ensures final(bp).wf(), final(bp).same(&pre2), final(bp).cur() > pre2.cur(), final(bp).evs() == pre2.evs(),
-closure 1 `TokenKind` ret `b: bool`:
+closure @ `|t| !matches!(t, T![@] | T![#] | T![~])` `TokenKind` ret `b: bool`:
         ensures b == !is_marker(t)
 after `let text = bp.text(start, tokens);`:
             proof { lemma_off_mono(bp.toks(), pre2.cur(), bp.cur()); }
@@ -1857,7 +1857,7 @@ after `bp.event(Event::Text(text));`:
                     lemma_grown_push(mid2.evs(), Event::Text(text));
                     lemma_grown_trans(bp.evs(), mid2.evs(), old(bp).evs());
                 }
-after `bp.event(Event::Text(text));\n            }`:
+after `bp.event(Event::Text(text));<NL>            }`:
             proof {
                 lemma_grown_refl(mid2.evs());
                 lemma_covered_grown(bp.toks(), pre.cur(), mid2.evs(), bp.evs(), n0);
@@ -1925,9 +1925,9 @@ spec:
         ev_grown(final(bp).evs(), old(bp).evs()),
         // [C05] a block that is not a `>` text paragraph: every letter and digit is covered by an event of this call
         old(bp).toks()[0].kind != TokenKind::TextStep ==> covered(final(bp).toks(), final(bp).toks().len() as int, final(bp).evs(), old(bp).evs().len() as int),
-closure 0 `&Token` ret `b: bool`:
+closure @ `|t| t.kind != T![newline]` `&Token` ret `b: bool`:
         ensures b == (t.kind != TokenKind::Newline)
-closure 1 `&Token` ret `b: bool`:
+closure @ `|t| {` `&Token` ret `b: bool`:
         ensures b == empty_kind(t.kind)
 before `bp.consume_rest();`:
         proof {
@@ -1950,7 +1950,7 @@ spec:
             ==> covered(final(block).toks(), final(block).toks().len() as int, final(block).evs(), old(block).evs().len() as int),     // [C05]
 before `let meta_or_section = match block.peek() {`:
     let ghost pre = *block;
-?closure 0 `&mut BlockParser<'_, '_>` ret `o: Option<Event<'_>>`:
+?closure @ `|bp| {` `&mut BlockParser<'_, '_>` ret `o: Option<Event<'_>>`:
         requires *old(bp) == pre, pre.wf(), pre.cur() == 0
         ensures final(bp).wf(), final(bp).same(&pre), o.is_some() ==> final(bp).cur() == final(bp).toks().len(),
             only_diags(final(bp).evs(), pre.evs()), o.is_some() ==> covered_by(pre.toks(), o.unwrap()),
